@@ -11,6 +11,8 @@ import collections
 VERIF = os.path.dirname(os.path.dirname(os.path.abspath(__file__)))
 PY = os.environ.get("VERIF_PYTHON", "/venv/bin/python")
 NPROC = int(os.environ.get("VERIF_NPROC", "16"))
+# evidence/ and replays/ are written here (sensitivity runs against scratch copies point it elsewhere)
+OUT = os.environ.get("VERIF_OUT_DIR", VERIF)
 
 
 def load_check(prop):
@@ -210,7 +212,7 @@ def run_check(prop, tier, seed, replay=None, nproc=None):
                 # every listed finding has a directed case in the plan; not seeing it means the defect is gone
                 print("NOTE: listed finding %s was not observed in this run (repaired?)" % k["id"])
     seen_sig = set()
-    rdir = os.path.join(VERIF, "replays", prop)
+    rdir = os.path.join(OUT, "replays", prop)
     for item in new:
         sig = signature(item["violation"])
         if sig in seen_sig:
@@ -223,7 +225,7 @@ def run_check(prop, tier, seed, replay=None, nproc=None):
         path = os.path.join(rdir, name)
         with open(path, "w") as f:
             json.dump({"property": prop, "tier": tier, "seed": seed, "case": item["case"], "violation": item["violation"], "extra": item.get("replay_extra"), "count": viol_counts[sig]}, f, indent=1)
-        print("VIOLATION property=%s replay=%s rule=%s count=%d" % (prop, os.path.relpath(path, VERIF), sig, viol_counts[sig]))
+        print("VIOLATION property=%s replay=%s rule=%s count=%d" % (prop, os.path.relpath(path, OUT), sig, viol_counts[sig]))
         exit_code = 1
     wall = time.monotonic() - t0
     if exit_code == 0 and inconclusive:
@@ -256,8 +258,8 @@ def run_check(prop, tier, seed, replay=None, nproc=None):
         }
         if getattr(mod, "EXHAUSTIVE", False):
             ev["coverage"]["exhaustive"] = True
-        os.makedirs(os.path.join(VERIF, "evidence"), exist_ok=True)
-        with open(os.path.join(VERIF, "evidence", "%s.json" % prop), "w") as f:
+        os.makedirs(os.path.join(OUT, "evidence"), exist_ok=True)
+        with open(os.path.join(OUT, "evidence", "%s.json" % prop), "w") as f:
             json.dump(ev, f, indent=1)
     print(
         "%s tier=%s seed=%s cases=%d distinct=%d violations(new)=%d known=%d wall=%.1fs verdict=%s"
